@@ -20,6 +20,8 @@ EXPLANATION = (
     "test. Decides the structure that makes completion final for every schedule; does not decide user code writing "
     "_status directly.")
 EXPLANATION += (" The status that is tested is the scheduler's own model - a status read through the scheduled system (sys.model) does not count. Drivers are discovered: every package function outside the scheduler that calls Model.execute or execute_systems.")
+EXPLANATION += (" Model.complete() stores COMPLETE on every path (a path without the store must have read the status field as complete; a test through an overridable method of the model does not count). A bound method kept in a field is called on the receiver it was bound to, which is not the scheduler's own model. Empty public methods called from Model.execute are extension points and come after the running test. The silent not-running exit issues no warning.")
+EXPLANATION += (' ModelCompleteError is an ordinary Exception subclass; every method of the scheduled system that the scheduler calls counts like execute for the running-test discipline.')
 ASSUMPTIONS = ["G6: user code completes a model only through Model.complete()", "IntEnum members compare as their declared values"]
 
 SLOC = (CORE + 'Model', '_status')
@@ -87,6 +89,22 @@ def _not_running_established(cx, p):
                 if implies(f, want) is None:
                     return e
     return None
+
+
+def _runs_system_code(cx, e) -> bool:
+    """System.execute, or any other method of the scheduled system object (clean_up, ...): user code that runs on the scheduler's
+    initiative and must not run once the model is complete."""
+    if is_system_execute_call(cx, e):
+        return True
+    if e.kind != 'call':
+        return False
+    sysc = cx.prog.cls(CORE + 'System')
+    from sa.terms import term_symbols
+    recv = e.data.get('recv')
+    if recv is None or not any(isinstance(x, Sym) and x.name.rstrip("'") in _LOOP_VARS for x in term_symbols(recv)):
+        return False
+    return any(t.cls is not None and cx.prog.is_subclass(t.cls, sysc) and not t.is_property and t.name != '__init__'
+               for t in e.data.get('targets', []))
 
 
 def _is_hook(t) -> bool:
@@ -181,6 +199,9 @@ def run(cx: Cx):
         if n_cp:
             cx.ok('R-DISC', f"every path of Model.complete() stores COMPLETE ({n_cp} path(s))", where=cx.where(comp), function=comp.qualname)
 
+    from .common import check_error_is_plain_exception
+    check_error_is_plain_exception(cx, CORE + 'ModelCompleteError')
+
     isr = cx.fn(CORE + 'Model.is_running')
     # completion is a fact about the model: the status lives in the model object itself, not in an object the model merely refers to
     # (model.systems, model.environment are public attributes and can be replaced - completion would be replaced with them)
@@ -252,7 +273,7 @@ def run(cx: Cx):
     n_nr = n_pairs = 0
     for p in ps:
         nre = _not_running_established(cx, p)
-        execs = [e for e in p.events if is_system_execute_call(cx, e)]
+        execs = [e for e in p.events if _runs_system_code(cx, e)]
         first_effect = None
         for e in p.events:
             if (e.kind == 'store' and e.data.get('shared')) or e in execs or e.kind == 'loop':
@@ -325,7 +346,7 @@ def run(cx: Cx):
     bad = None
     for p in mps:
         evs = p.events
-        marks = [(i, 'execute') for i, e in enumerate(evs) if is_system_execute_call(cx, e)]
+        marks = [(i, 'execute') for i, e in enumerate(evs) if _runs_system_code(cx, e)]
         clocks = [i for i, e in enumerate(evs) if e.kind == 'store' and e.data.get('loc') == TLOC]
         # (a) running edge between consecutive executes, and before the first effect of the request
         seq = sorted(marks + [(i, 'clock') for i in clocks])
